@@ -67,6 +67,9 @@ CLAIMED = {
  "C28": ("exploration", "4.5, 5 C28", "generated and mutated requests against a live simulated node",
          "Against a real node with chain, pool, wallets and kv data, 20-80 requests per run over every documented route and method with parameters taken from live state and mutated; a panic (reported with the function it happened in), a status outside 200-599, a declared-JSON body that does not parse, or a verify answer without verdict is a violation, and afterwards the node must still list a conserved unspent set.",
          "Requests go through httptest into the real handler, so net/http's own server loop, timeouts and connection handling are not exercised; 'hang' is detected only as a deadlock of the bubble."),
+ "C32": ("exploration", "4.2, 5 C32", "real pool goroutines under a tape-driven yield scheduler with the Go race detector (deterministic simulation with fault injection)",
+         "The real ConnectionPool (Run and its accept loop, the strand goroutine, handleConnection with its read / send / receive loops, Connect, Shutdown) runs as real goroutines on simulated connections inside a synctest bubble, built with -race; every goroutine parks at yield points (top of every Strand call, every simulated network operation, every callback and handler, sendLoop's spin on a closed queue) and the choice tape decides who proceeds or whether the fake clock advances. 2-4 callers issue the public operations while peers write, split, stall, misbehave, close and reset and one goroutine calls Shutdown at a tape-chosen moment (sometimes before the pool listens). Checked: no race report; every call returns success, the pool-closed error or a documented error of that call; calls started after Shutdown returned get the pool-closed error; Shutdown and Run return; all five registries empty; every connection handed to the pool closed; no pool goroutine left; connect/disconnect callbacks pair up; peers only receive well-formed frames; per-connection delivery order. The park/release protocol uses no channel, mutex or atomic (norace memory + sleeping on the fake clock), so the scheduler itself adds no happens-before edge that could hide a race.",
+         "Which case a select with several ready cases takes is the Go runtime's choice and is not controlled: schedules are replayed from the tape, violations that depend on that choice reproduce in a fraction of replays (the replay file records it, replay retries up to 10 times). Oracles only flag outcomes that are wrong under every resolution. The daemon above the pool is not part of these runs (callbacks and the message handler are harness code that never blocks). Race detection is the Go race detector's (happens-before, bounded history)."),
 }
 
 NA = {
@@ -117,9 +120,11 @@ def main():
     json.dump(m, open(os.path.join(V, "MANIFEST.json"), "w"), indent=1)
     print("claimed", len(checks), "not_applicable", len(NA))
 
-ENGINE = {"C08": "e4 (in e1 binary)", "C26": "e6", "C27": "e5 (in e1 binary)", "C28": "e5 (in e1 binary)", "C17": "e3", "C18": "e3", "C19": "e3", "C20": "e3"}
-ADD_ONLY = False  # H7 rewrites three call sites in util/file.SaveBinary (ioutil.WriteFile/os.Remove -> fsWriteFile/fsRemove)
+ENGINE = {"C32": "e2", "C08": "e4 (in e1 binary)", "C26": "e6", "C27": "e5 (in e1 binary)", "C28": "e5 (in e1 binary)", "C17": "e3", "C18": "e3", "C19": "e3", "C20": "e3"}
+ADD_ONLY = False  # H7 rewrites three call sites in util/file.SaveBinary (ioutil.WriteFile/os.Remove -> fsWriteFile/fsRemove); H8 rewrites two in gnet (net.Listen/net.DialTimeout -> netListen/netDialTimeout)
 ENGINES = [
+ dict(name="e2", path="/verif/harness/e2", serves_properties=["C32"],
+      kind_free_text="the real gnet connection pool as real goroutines on simulated connections under the race detector; tape-driven yield scheduler whose park/release protocol adds no happens-before edges (hook H8)"),
  dict(name="e6", path="/verif/harness/e6", serves_properties=["C26"], kind_free_text="real peer list with its Run goroutine in a synctest bubble, seeded operation histories"),
  dict(name="e3", path="/verif/harness/e3", serves_properties=["C17", "C18", "C19", "C20"],
       kind_free_text="wallet service, wallet types and key-value storage on a simulated disk (hook H7): operation histories, disk-error injection, crash-prefix enumeration, bit-rot"),
